@@ -304,8 +304,27 @@ const TOKENS: &[&str] = &[
     "#!eof", "#0=", "|a b|", "\n", "\t", " ", "\u{a0}", "\u{2028}", "\u{feff}", "😀",
 ];
 
+/// special forms with a hole in a binding position (formals, definition and assignment targets, binding lists,
+/// literals lists), also in definitions nested in a body that is never executed
+const BINDING_HOLES: &[&str] = &[
+    "(lambda ({}) 1)", "(lambda (x {}) x)", "(lambda (x . {}) x)", "(define (zf {}) 1)", "(define (zg) (define (zf {}) 1) 2)",
+    "(lambda (x) (define (zf a {}) 1) 2)", "(define (zg) (define (zf a . {}) 1) 2)", "(define (zg) (lambda ({}) 1))",
+    "(lambda (x) (lambda (y {}) y))", "(lambda (x) (set! {} x))", "(define {} 2)", "(let (({} 1)) 2)", "(let loop (({} 1)) 2)",
+    "(let* (({} 1)) 2)", "(letrec (({} 1)) 2)", "(do (({} 0 1)) (#t))", "(define (zg) (let (({} 1)) 2))",
+    "(define-syntax {} (syntax-rules () ((_) 1)))", "(define-syntax zm (syntax-rules ({}) ((_) 1)))",
+    "(define-syntax zm (syntax-rules () (({}) 1)))", "(define (zg) (case 1 (({}) 1) (else 2)))", "(define ((zf {}) y) 1)",
+    "(define (zg) (define ({} a) 1) 2)", "(lambda {} 1)", "(define (zg) (lambda {} 1))",
+];
+const ODD_DATA: &[&str] = &["1.5", ".5", "1e300", "-0.0", "+inf.0", "+nan.0", "#(2.5)", "#(a)", "\"s\"", "#\\a", "(a)", "()", "#t", "1/2",
+                            "100000000000000000000", "'x", "`x", ",x", "(a . 1.5)", "#()", "5"];
+
 fn random_text(rng: &mut Rng) -> String {
-    match rng.below(4) {
+    match rng.below(5) {
+        4 => {
+            let h: &str = BINDING_HOLES[rng.below(BINDING_HOLES.len())];
+            let d: &str = ODD_DATA[rng.below(ODD_DATA.len())];
+            h.replace("{}", d)
+        }
         0 => {
             // random Unicode
             let n = rng.below(20);
